@@ -101,6 +101,11 @@ inductive Conf (su : Setup) (std : Std) : Ty → PyVal → Prop
   | ntuple (name : S) (fields : List (S × Ty × Option Dflt)) (xs : List PyVal) : xs.length = fields.length →
       (∀ p ∈ (fields.map (·.2.1)).zip xs, Conf su std p.1 p.2) →
       Conf su std (.ntuple name fields) (.ntuple name (fields.map (·.1)) xs)
+  | typeddict (name : S) (fields : List (S × Ty × Bool)) (vals : List (Option PyVal)) :
+      (fields.map (·.1)).Nodup → vals.length = fields.length →
+      (∀ p ∈ fields.zip vals, p.2 = none → p.1.2.2 = false) →
+      (∀ p ∈ fields.zip vals, ∀ v, p.2 = some v → Conf su std p.1.2.1 v) →
+      Conf su std (.typeddict name fields) (.map .dict ((tdPresent fields vals).map (fun p => (.str p.1, p.2))))
 
 /-- the round-trip statement for one value below the v1 root -/
 def RT1 (su : Setup) (std : Std) (t : Ty) (v : PyVal) : Prop :=
@@ -475,6 +480,60 @@ theorem rt_ntuple (std : Std) (name : S) (fields : List (S × Ty × Option Dflt)
         pure, Except.pure]
     · intro kvs hk; cases hk
 
+
+/-! ### TypedDict values -/
+
+/-- the generated TypedDict loader over a document in which every present key holds the dump of a value that round-trips
+and every absent key is optional -/
+theorem v1Td_present (std : Std) (J : List (S × JVal)) :
+    ∀ (fs : List (S × Ty × Bool)) (vals : List (Option PyVal)), vals.length = fs.length →
+    (∀ p ∈ fs.zip vals, p.2 = none → p.1.2.2 = false ∧ J.find? (fun kv => kv.1 == p.1.1) = none) →
+    (∀ p ∈ fs.zip vals, ∀ v, p.2 = some v → ∃ d, dumpV std false cV1 v = .ok d ∧
+        J.find? (fun kv => kv.1 == p.1.1) = some (p.1.1, toJ d) ∧ RT1 su std p.1.2.1 v) →
+    v1Td std cV1 fs J = .ok ((tdPresent fs vals).map pyPair)
+  | [], vals, _, _, _ => by cases vals <;> simp [v1Td, tdPresent, pure, Except.pure]
+  | f :: fs, [], hl, _, _ => by simp at hl
+  | (k, t, req) :: fs, none :: vs, hl, hn, hs => by
+    obtain ⟨hreq, hfind⟩ := hn ((k, t, req), none) (by simp) rfl
+    simp only at hreq hfind
+    have ih := v1Td_present std J fs vs (by simpa using hl)
+      (fun p hp => hn p (by simp [hp])) (fun p hp => hs p (by simp [hp]))
+    subst hreq
+    simp only [v1Td, hfind, tdPresent, ih]
+    simp
+  | (k, t, req) :: fs, some v :: vs, hl, hn, hs => by
+    obtain ⟨d, hd, hfind, hrt⟩ := hs ((k, t, req), some v) (by simp) v rfl
+    simp only at hfind hrt
+    have ih := v1Td_present std J fs vs (by simpa using hl)
+      (fun p hp => hn p (by simp [hp])) (fun p hp => hs p (by simp [hp]))
+    simp only [v1Td, hfind, tdPresent, ih, hrt d hd, bind, Except.bind, pure, Except.pure, List.map_cons, pyPair]
+
+theorem rt_typeddict (std : Std) (name : S) (fields : List (S × Ty × Bool)) (vals : List (Option PyVal))
+    (hnd : (fields.map (·.1)).Nodup) (hl : vals.length = fields.length)
+    (hopt : ∀ p ∈ fields.zip vals, p.2 = none → p.1.2.2 = false)
+    (ih : ∀ p ∈ fields.zip vals, ∀ v, p.2 = some v → RT1 su std p.1.2.1 v) :
+    RT1 su std (.typeddict name fields) (.map .dict ((tdPresent fields vals).map pyPair)) := by
+  intro d h
+  rw [dumpV_dict] at h
+  cases hd : dumpPairs std false cV1 ((tdPresent fields vals).map pyPair) with
+  | error e => simp [hd, Except.map] at h
+  | ok ps =>
+    simp [hd, Except.map] at h; subst h
+    obtain ⟨hnone, hsome⟩ := dumpPairs_find std cV1 (tdPresent fields vals) ps hd
+    have hndp : ((tdPresent fields vals).map (·.1)).Nodup := (tdPresent_keys_sublist fields vals).nodup hnd
+    have hload := v1Td_present (su := su) std (toJPairs ps) fields vals hl
+      (fun p hp hpn => ⟨hopt p hp hpn, hnone p.1.1 (tdPresent_absent fields vals p.1 hnd (by
+        have : p = (p.1, none) := by rw [← hpn]
+        rw [← this]; exact hp))⟩)
+      (fun p hp v hpv => by
+        obtain ⟨d, hd1, hd2⟩ := hsome hndp (p.1.1, v) (tdPresent_mem fields vals p.1 v (by
+          have : p = (p.1, some v) := by rw [← hpv]
+          rw [← this]; exact hp))
+        exact ⟨d, hd1, hd2, ih p hp v hpv⟩)
+    have htj : toJ (.dict false ps) = .dict (toJPairs ps) := by rw [toJ]
+    rw [htj, loadV1]
+    simp only [hload, pure, Except.pure]
+
 theorem dump_nonnull (std : Std) (t : Ty) (v : PyVal) (hc : Conf su std t v) (hn : nonNullTy t = true) (d : DVal)
     (h : dumpV std false cV1 v = .ok d) : toJ d ≠ .null := by
   cases hc with
@@ -537,6 +596,10 @@ theorem dump_nonnull (std : Std) (t : Ty) (v : PyVal) (hc : Conf su std t v) (hn
     cases hd : dumpPairs std false cV1 (kvs.map (fun p => (PyVal.str p.1, p.2))) <;> simp [hd, Except.map] at h
     subst h; simp [toJ]
   | literal vs l _ _ => simp [nonNullTy] at hn
+  | typeddict name fields vals _ _ _ _ =>
+    rw [dumpV_dict] at h
+    cases hd : dumpPairs std false cV1 ((tdPresent fields vals).map (fun p => (PyVal.str p.1, p.2))) <;> simp [hd, Except.map] at h
+    subst h; simp [toJ]
   | ntuple name fields xs _ _ =>
     rw [dumpV_ntuple] at h
     cases hd : dumpList std false cV1 xs <;> simp [hd, Except.map] at h
@@ -838,6 +901,7 @@ theorem roundtrip (std : Std) (laws : StdLaws std) (t : Ty) (v : PyVal) (hc : Co
   | ordereddict t kvs hnd _ ih => exact rt_mapk std .ordereddict true t kvs (dumpV_ordereddict std cV1) hnd ih
   | literal vs l hm hr => exact rt_literal std vs l hm hr
   | ntuple name fields xs hl _ ih => exact rt_ntuple std name fields xs hl ih
+  | typeddict name fields vals hnd hl hopt _ ih => exact rt_typeddict std name fields vals hnd hl hopt ih
 
 
 /-- at the top level: `fromdict(cls, json(asdict(x))) = x` for a main class that declares the v1 Meta -/
